@@ -81,6 +81,14 @@ def check(camp, name, fields, body_lines, glue, mids):
                   {"name": name, "text": text, "expect": 0})
     else:
         cli_routes(camp, name, text, 0, "wellformed")
+        # the same file with DOS / old-Mac line ends, handed over as text (the tool translates them): still a well-formed header
+        for eol, label in (("\r\n", "crlf"), ("\r", "cr")):
+            r2, n2 = count_ih(name, text.replace("\n", eol))
+            camp.case(label + "\0" + text, True)
+            camp.count("wellformed:" + label)
+            if n2 != 0 and r2.status not in ("FATAL", "CRASH"):
+                camp.fail("C13|wellformed|%s" % label, "well-formed header with %s line ends reported INVALID_HEADER %d time(s)" % (label.upper(), n2),
+                          {"name": name, "text": text.replace("\n", eol), "expect": 0})
     # a file that holds nothing but its (well-formed) header: still no INVALID_HEADER, and nothing of it may survive into the next file
     stub = "\n".join(hdr) + ("\n" if len(fields["login"]) % 2 else "")
     r, n = count_ih(name, stub)
